@@ -14,6 +14,10 @@ import random
 import time
 
 
+class _LiveException(Exception):
+    pass
+
+
 def implies(a, b):
     return (not a) or b
 
@@ -104,8 +108,17 @@ def check_native(c, args, fn=None):
     except Exception:
         call_args = dict(args)
     pre_ns.update(copy.deepcopy(args) if call_args is not args else args)
+    live = None
     try:
-        result = fn(**call_args)
+        if 'LIVE' in c.raises:
+            # the function may re-raise the exception that is active at the call: provide one
+            try:
+                raise _LiveException('live exception provided by the harness')
+            except _LiveException as lv:
+                live = lv
+                result = fn(**call_args)
+        else:
+            result = fn(**call_args)
         exc = None
     except BaseException as ex:     # noqa
         result = None
@@ -124,7 +137,7 @@ def check_native(c, args, fn=None):
             if not ok:
                 return {'clause': 'post:' + name, 'detail': 'clause is false', 'result': repr(result)}
         for clsname, when in c.raises.items():
-            if when is None:
+            if when is None or clsname.endswith('?'):
                 continue
             try:
                 if eval_clause(when, post, pre_ns):
@@ -135,8 +148,18 @@ def check_native(c, args, fn=None):
         return None
     post['exc'] = exc
     for clsname, when in c.raises.items():
-        base = clsname.rstrip('*')
+        base = clsname.rstrip('*?')
         if base == 'LIVE':
+            if exc is live:
+                try:
+                    ok = True if when is None else eval_clause(when, post, pre_ns)
+                except Exception as ex:
+                    return {'clause': 'raises:LIVE', 'detail': 'clause raised %r' % (ex,)}
+                if ok:
+                    return None
+                return {'clause': 'raises:LIVE', 'detail': 're-raised the live exception although the condition is false'}
+            continue
+        if exc is live:
             continue
         cls = exc_class(base)
         if cls is not None and isinstance(exc, cls):
